@@ -91,7 +91,7 @@ def SquashSem : Prop :=
 
 def SkipSem (G : Grammar) : Prop :=
   ∀ (inp : Input) (a : Bool) (e : Expr) (subs : List Str) (s : S0), SkipPat G a e subs → s.atomic = a →
-    Conv G inp e s (.ok { s with pos := L1.skipUntilPos inp subs s.pos } [])
+    s.pos ≤ inp.size → Conv G inp e s (.ok { s with pos := L1.skipUntilPos inp subs s.pos } [])
 
 /-! ### the grammar relation -/
 
@@ -151,15 +151,16 @@ theorem fwd (hgr : GR F G G') (hsq : F.squash = true → SquashSem) (hsk : F.ski
     ∀ n a e e', TR F G a e e' → SimAt inp G' (run G inp n) a e e' := by
   intro n
   induction n with
-  | zero => intro a e e' _ s _ hne; exact absurd rfl hne
+  | zero => intro a e e' _ s _ _ hne; exact absurd rfl hne
   | succ n ih =>
     have hap := run_AP G inp n
+    have hpb := run_PB G inp n
     have hskip : SkipSim G inp G' (run G inp n) n :=
-      skip_sim G inp G' n (ruleSim_fwd inp ih hgr.fused) (ruleSim_fwd inp ih (hgr.2 _))
+      skip_simO G inp G' hpb n (ruleSim_fwd inp ih hgr.fused) (ruleSim_fwd inp ih (hgr.2 _))
         (ruleSim_fwd inp ih (hgr.2 _))
-    have hc : ∀ {a e e'}, Cong G G' (SimAt inp G' (run G inp n)) a e e' →
+    have hc : ∀ {a e e'}, CongO G G' (SimAt inp G' (run G inp n)) a e e' →
         SimAt inp G' (run G inp (n + 1)) a e e' :=
-      fun h s ha hne => cong_sim G inp G' hap n hskip hgr.1 h s ha hne
+      fun h s ha hp hne => cong_sim G inp G' hap hpb n hskip hgr.1 h s ha hp hne
     intro a e e' h
     cases h with
     | term ht => exact hc (.term ht)
@@ -173,6 +174,7 @@ theorem fwd (hgr : GR F G G') (hsq : F.squash = true → SquashSem) (hsk : F.ski
       · exact this
       · exact ⟨this.1, this.2.1, ih _ _ _ (this.2.2 a)⟩
     | rule => exact hc (.rule (ih _ _ _ (TR.refl F G _ _)))
+    | ruleC hra h1 => exact hc (.rule (by rw [hra]; exact ih _ _ _ h1))
     | seq hl hh => exact hc (.seqlike rfl rfl (All2.of_index _ _ hl fun i h1 h2 => ih _ _ _ (hh i h1 h2)))
     | choice hl hh => exact hc (.choice (All2.of_index _ _ hl fun i h1 h2 => ih _ _ _ (hh i h1 h2)))
     | opt h1 => exact hc (.opt (ih _ _ _ h1))
@@ -191,7 +193,7 @@ theorem fwd (hgr : GR F G G') (hsq : F.squash = true → SquashSem) (hsk : F.ski
     | unroll1 h1 => exact hc (.seqlike rfl rfl (.cons (ih _ _ _ h1) (.cons (ih _ _ _ (.rep h1)) .nil)))
     | unroll1g h1 =>
       refine hc (.seqlike rfl rfl (.cons ?_ (.cons (ih _ _ _ (.rep h1)) .nil)))
-      exact fun s ha hne => Tgt.group_elim inp (ih _ _ _ h1 s ha hne)
+      exact fun s ha hp hne => Tgt.group_elim inp (ih _ _ _ h1 s ha hp hne)
     | unrollExact h1 => exact hc (.seqlike rfl rfl (All2.replicate (ih _ _ _ h1) _))
     | unrollMin h1 =>
       exact hc (.seqlike rfl rfl ((All2.replicate (ih _ _ _ h1) _).append (.cons (ih _ _ _ (.rep h1)) .nil)))
@@ -199,14 +201,14 @@ theorem fwd (hgr : GR F G G') (hsq : F.squash = true → SquashSem) (hsk : F.ski
     | unrollMinMax h1 =>
       exact hc (.seqlike rfl rfl ((All2.replicate (ih _ _ _ h1) _).append (All2.replicate (ih _ _ _ (.opt h1)) _)))
     | @inlB nm m sm b _ hm hn h1 =>
-      intro s ha hne
+      intro s ha hp hne
       have e1 : run G inp (n + 1) (.rule nm m sm b) s = run G inp n b s := by
         show ruleApply (run G inp n) nm m b s = _
         exact ruleApply_same hap hm.1 b s (plain_ruleAtomic hm hn _)
       rw [e1] at hne ⊢
-      exact ih _ _ _ h1 s ha hne
+      exact ih _ _ _ h1 s ha hp hne
     | @inlS nm r _ hl hs hra h1 =>
-      intro s ha hne
+      intro s ha hp hne
       have e1 : run G inp (n + 1) (.ident nm none) s = run G inp n r.body s := by
         show callRule G (run G inp n) nm s = _
         unfold callRule
@@ -214,10 +216,10 @@ theorem fwd (hgr : GR F G G') (hsq : F.squash = true → SquashSem) (hsk : F.ski
         simp only []
         exact ruleApply_same hap hs _ s (by rw [ha]; exact hra)
       rw [e1] at hne ⊢
-      exact ih _ _ _ h1 s ha hne
+      exact ih _ _ _ h1 s ha hp hne
     | @squash es es' alts hF hl hh hpat =>
-      intro s ha hne
-      have t1 := hc (.choice (All2.of_index _ _ hl fun i h1 h2 => ih _ _ _ (hh i h1 h2))) s ha hne
+      intro s ha hp hne
+      have t1 := hc (.choice (All2.of_index _ _ hl fun i h1 h2 => ih _ _ _ (hh i h1 h2))) s ha hp hne
       have c1 := Tgt.conv inp G' t1 hne
       have c2 := hsq hF G G' inp es' alts s hgr.1 hpat
       rw [Conv.det G' inp c1 c2]
@@ -226,9 +228,9 @@ theorem fwd (hgr : GR F G G') (hsq : F.squash = true → SquashSem) (hsk : F.ski
         obtain ⟨m', rfl⟩ : ∃ m', m = m' + 1 := ⟨m - 1, by omega⟩
         exact optChoice_run inp G' hne' m' s⟩
     | @skip e0 subs hF hpat =>
-      intro s ha hne
+      intro s ha hp hne
       have c1 : Conv G inp e s (run G inp (n + 1) e s) := ⟨n + 1, rfl, hne⟩
-      have c2 := hsk hF inp a e subs s hpat ha
+      have c2 := hsk hF inp a e subs s hpat ha hp
       rw [Conv.det G inp c1 c2]
       exact ⟨1, fun m hm => by
         obtain ⟨m', rfl⟩ : ∃ m', m = m' + 1 := ⟨m - 1, by omega⟩
@@ -362,6 +364,10 @@ theorem sq_term {a : Bool} {e e' : Expr} (h : TR F G a e e') :
   | @rule n m sm b =>
     intro hs s ha
     exact sqT_conv inp G _ hs s
+  | @ruleC n m sm b b' hra h1 ih =>
+    intro hs s ha
+    obtain ⟨r, hr⟩ := ih hs { s with atomic := ruleAtomic n m s.atomic } (by show ruleAtomic n m s.atomic = _; rw [ha, hra])
+    exact conv_rule inp G n m sm b s r hr
   | seq _ _ _ => intro h; exact absurd h id
   | @choice es es' hl hh ih =>
     intro hs s ha
@@ -425,15 +431,16 @@ theorem rev (hgr : GR F G G') (hsq : F.squash = true → SquashSem) (hsk : F.ski
     ∀ n a e e', TR F G a e e' → SimAt inp G (run G' inp n) a e' e := by
   intro n
   induction n with
-  | zero => intro a e e' _ s _ hne; exact absurd rfl hne
+  | zero => intro a e e' _ s _ _ hne; exact absurd rfl hne
   | succ n ih =>
     have hap := run_AP G' inp n
+    have hpb := run_PB G' inp n
     have hskip : SkipSim G' inp G (run G' inp n) n :=
-      skip_sim G' inp G n (ruleSim_rev inp ih hgr.fused) (ruleSim_rev inp ih (hgr.2 _))
+      skip_simO G' inp G hpb n (ruleSim_rev inp ih hgr.fused) (ruleSim_rev inp ih (hgr.2 _))
         (ruleSim_rev inp ih (hgr.2 _))
-    have hc : ∀ {a e e'}, Cong G' G (SimAt inp G (run G' inp n)) a e' e →
+    have hc : ∀ {a e e'}, CongO G' G (SimAt inp G (run G' inp n)) a e' e →
         SimAt inp G (run G' inp (n + 1)) a e' e :=
-      fun h s ha hne => cong_sim G' inp G hap n hskip hgr.1.symm h s ha hne
+      fun h s ha hp hne => cong_sim G' inp G hap hpb n hskip hgr.1.symm h s ha hp hne
     intro a e e' h
     induction h with
     | term ht => exact hc (.term ht)
@@ -449,6 +456,7 @@ theorem rev (hgr : GR F G G') (hsq : F.squash = true → SquashSem) (hsk : F.ski
         rw [this.1, this.2.1]
         exact ih _ _ _ (this.2.2 a)
     | rule => exact hc (.rule (ih _ _ _ (TR.refl F G _ _)))
+    | ruleC hra h1 _ => exact hc (.rule (by rw [hra]; exact ih _ _ _ h1))
     | seq hl hh _ =>
       exact hc (.seqlike rfl rfl (All2.of_index _ _ hl.symm fun i h1 h2 => ih _ _ _ (hh i h2 h1)))
     | choice hl hh _ =>
@@ -470,7 +478,7 @@ theorem rev (hgr : GR F G G') (hsq : F.squash = true → SquashSem) (hsk : F.ski
     | unroll1g h1 ih1 =>
       refine hc (.seqlike rfl rfl (.cons ?_ (.cons (ih _ _ _ (.rep h1)) .nil)))
       -- `run (n+1) (group x') = run n x'`
-      exact fun s ha hne => ih1 s ha hne
+      exact fun s ha hp hne => ih1 s ha hp hne
     | unrollExact h1 _ => exact hc (.seqlike rfl rfl (All2.replicate (ih _ _ _ h1) _))
     | unrollMin h1 _ =>
       exact hc (.seqlike rfl rfl ((All2.replicate (ih _ _ _ h1) _).append (.cons (ih _ _ _ (.rep h1)) .nil)))
@@ -478,13 +486,13 @@ theorem rev (hgr : GR F G G') (hsq : F.squash = true → SquashSem) (hsk : F.ski
     | unrollMinMax h1 _ =>
       exact hc (.seqlike rfl rfl ((All2.replicate (ih _ _ _ h1) _).append (All2.replicate (ih _ _ _ (.opt h1)) _)))
     | @inlB nm m sm b b' hm hn h1 ih1 =>
-      intro s ha hne
-      exact Tgt.rule_same inp hm.1 (plain_ruleAtomic hm hn _) (ih1 s ha hne)
+      intro s ha hp hne
+      exact Tgt.rule_same inp hm.1 (plain_ruleAtomic hm hn _) (ih1 s ha hp hne)
     | @inlS nm r b' hl hs hra h1 ih1 =>
-      intro s ha hne
-      exact Tgt.ident_same inp hl hs (by rw [ha]; exact hra) (ih1 s ha hne)
+      intro s ha hp hne
+      exact Tgt.ident_same inp hl hs (by rw [ha]; exact hra) (ih1 s ha hp hne)
     | @squash es es' alts hF hl hh hpat _ =>
-      intro s ha hne
+      intro s ha hp hne
       have hpat' := hpat
       obtain ⟨k, hk, hne', _, _⟩ := hpat'
       rw [optChoice_run inp G' hne' n s]
@@ -493,7 +501,7 @@ theorem rev (hgr : GR F G G') (hsq : F.squash = true → SquashSem) (hsk : F.ski
         sq_term inp (hh i hi (by omega)) (SqTL.index (squash_SqTL k es' [] alts hk) i (by omega)) s ha
       -- … so the forward simulation applies, and the target is deterministic
       obtain ⟨n1, hn1, hr1⟩ := hr
-      have t := fwd inp hgr hsq hsk n1 a _ _ (TR.squash hF hl hh hpat) s ha (by rw [hn1]; exact hr1)
+      have t := fwd inp hgr hsq hsk n1 a _ _ (TR.squash hF hl hh hpat) s ha hp (by rw [hn1]; exact hr1)
       rw [hn1] at t
       have c1 := Tgt.conv inp G' t hr1
       have c2 : Conv G' inp (.optChoice alts false) s (optRes inp G' alts s) :=
@@ -501,30 +509,31 @@ theorem rev (hgr : GR F G G') (hsq : F.squash = true → SquashSem) (hsk : F.ski
       rw [← Conv.det G' inp c1 c2]
       exact Tgt.of_run inp G hn1 hr1
     | @skip e subs hF hpat =>
-      intro s ha hne
-      exact Tgt.of_conv inp G (hsk hF inp a e subs s hpat ha)
+      intro s ha hp hne
+      exact Tgt.of_conv inp G (hsk hF inp a e subs s hpat ha hp)
 
 /-! ### equivalence of grammars -/
 
-/-- every expression means the same in both grammars -/
+/-- every expression means the same in both grammars, from every position inside the input -/
 def EquivG (G G' : Grammar) : Prop :=
-  ∀ (inp : Input) (e : Expr) (s : S0) (r : R0), Conv G inp e s r ↔ Conv G' inp e s r
+  ∀ (inp : Input) (e : Expr) (s : S0) (r : R0), s.pos ≤ inp.size → (Conv G inp e s r ↔ Conv G' inp e s r)
 
-theorem EquivG.refl (G : Grammar) : EquivG G G := fun _ _ _ _ => Iff.rfl
-theorem EquivG.symm {G G' : Grammar} (h : EquivG G G') : EquivG G' G := fun i e s r => (h i e s r).symm
+theorem EquivG.refl (G : Grammar) : EquivG G G := fun _ _ _ _ _ => Iff.rfl
+theorem EquivG.symm {G G' : Grammar} (h : EquivG G G') : EquivG G' G :=
+  fun i e s r hp => (h i e s r hp).symm
 theorem EquivG.trans {G G' G'' : Grammar} (h : EquivG G G') (h' : EquivG G' G'') : EquivG G G'' :=
-  fun i e s r => (h i e s r).trans (h' i e s r)
+  fun i e s r hp => (h i e s r hp).trans (h' i e s r hp)
 
 theorem equivG_of_GR (hgr : GR F G G') (hsq : F.squash = true → SquashSem) (hsk : F.skip = true → SkipSem G) :
     EquivG G G' := by
-  intro inp e s r
+  intro inp e s r hp
   constructor
   · rintro ⟨n, hn, hr⟩
-    have := fwd inp hgr hsq hsk n s.atomic e e (TR.refl F G e _) s rfl (by rw [hn]; exact hr)
+    have := fwd inp hgr hsq hsk n s.atomic e e (TR.refl F G e _) s rfl hp (by rw [hn]; exact hr)
     rw [hn] at this
     exact Tgt.conv inp G' this hr
   · rintro ⟨n, hn, hr⟩
-    have := rev inp hgr hsq hsk n s.atomic e e (TR.refl F G e _) s rfl (by rw [hn]; exact hr)
+    have := rev inp hgr hsq hsk n s.atomic e e (TR.refl F G e _) s rfl hp (by rw [hn]; exact hr)
     rw [hn] at this
     exact Tgt.conv inp G this hr
 
